@@ -276,10 +276,10 @@ type vfC51CC struct {
 	// clusters referenced by the routes of the latest state's XDSConfig
 	routeClusters map[string]bool
 	errs          []error
-	holdNext bool
-	blocked  chan struct{} // closed when an UpdateState call is parked
-	release  chan struct{}
-	notify   chan struct{}
+	holdNext      bool
+	blocked       chan struct{} // closed when an UpdateState call is parked
+	release       chan struct{}
+	notify        chan struct{}
 }
 
 func (c *vfC51CC) ParseServiceConfig(js string) *serviceconfig.ParseResult {
